@@ -58,20 +58,23 @@ def run():
     vectors = os.path.join(vlib.scratch(), "vectors.ndjson")
     menv = {"VERIF_UNIVERSE": upath}
     venv = dict(menv, VERIF_VECTORS=vectors, VERIF_SB_ALLROUTES="1" if thorough else "0")
-    flow.mc_runs(out, [
-        dict(module="MCSandbox.tla", cfg="MCSandbox.cfg" if thorough else "MCSandboxQuick.cfg", env=venv),
-        dict(module="MCSandbox.tla", cfg="MCSandboxMint.cfg", env=menv, expect="violation"),
-    ])
-    # the property itself on the model: its refutation is a prediction (candidates), not a verdict
-    t = vlib.tlc("MCSandbox.tla", "MCSandboxClosed.cfg", env=menv)
-    if t.errors and not t.violated:
-        raise vlib.Inconclusive("TLC failed on MCSandboxClosed: %s" % t.errors[:3])
+    runs = [dict(module="MCSandbox.tla", cfg="MCSandbox.cfg" if thorough else "MCSandboxQuick.cfg", env=venv)]
+    if thorough:
+        runs.append(dict(module="MCSandbox.tla", cfg="MCSandboxMint.cfg", env=menv, expect="violation"))
+    flow.mc_runs(out, runs)
     vecs = [json.loads(l) for l in open(vectors) if l.strip()]
     if not vecs:
         raise vlib.Inconclusive("TLC wrote no probe vectors")
+    # the property itself on the model: a prediction (candidates), never a verdict
     predicted = sorted(set((v["cfg"], v["names"][0]) for v in vecs if v["kind"] == "probe" and v["cand"]))
-    vlib.log("model: SandboxClosed %s on this universe; candidates %s"
-             % ("REFUTED" if t.violated else "holds", predicted or "none"))
+    refuted = bool(predicted)
+    if thorough:
+        t = vlib.tlc("MCSandbox.tla", "MCSandboxClosed.cfg", env=menv)
+        if t.errors and not t.violated:
+            raise vlib.Inconclusive("TLC failed on MCSandboxClosed: %s" % t.errors[:3])
+        if bool(t.violated) != refuted:
+            raise vlib.Inconclusive("the vectors' predictions and the model-checked SandboxClosed disagree")
+    vlib.log("model: SandboxClosed %s on this universe; candidates %s" % ("REFUTED" if refuted else "holds", predicted or "none"))
 
     trace = os.path.join(vlib.scratch(), "sandbox.ndjson")
     vlib.run_zv(zv, "sandbox", ["-in", vectors, "-zygo", zygo, "-universe", upath, "-repo", vlib.REPO], trace, timeout=2400)
@@ -119,15 +122,21 @@ def run():
     nsand = {cfg: sum(1 for n in u["names"] if n["kind"][i] != "unbound" or n["mac"][i] or n["special"])
              for i, cfg in enumerate(u["cfgs"])}
     samples = []
-    for want in ("probe", "prog", "control"):
+
+    def pick(pred):
         for c in cases.values():
-            if c["kind"] == want and (want != "probe" or live.get(c["id"])):
+            if pred(c):
                 samples.append({"id": c["id"], "cfg": c["cfg"], "names": c["names"], "route": c["route"],
-                                "evs": [{k: e[k] for k in ("shape", "out", "events", "text") if k in e} for e in c["evs"][:6]]})
-                break
+                                "evs": [{k: e[k] for k in ("shape", "out", "events", "text") if k in e} for e in c["evs"][:8]]})
+                return
+    pick(lambda c: c["kind"] == "probe" and c["cfg"] == "std" and live.get(c["id"]) and c["route"] == "macro"
+         and sum(1 for e in c["evs"] if e["out"] == "val") >= 3)
+    pick(lambda c: c["kind"] == "prog" and c["cfg"] == "cmd" and c["evs"] and c["evs"][0]["out"] == "val")
+    pick(lambda c: c["kind"] == "control" and c["route"] == "direct" and any(e["events"] for e in c["evs"]))
+    pick(lambda c: c["kind"] == "probe")
     out.samples = samples
     out.extra["model_prediction"] = {
-        "SandboxClosed_refuted_on_this_universe": bool(t.violated),
+        "SandboxClosed_refuted_on_this_universe": refuted,
         "candidates_predicted": ["%s:%s" % p for p in predicted],
         "observed_with_events": ["%s:%s" % p for p in sorted(observed)],
         "observed_but_not_predicted": ["%s:%s" % p for p in unpredicted],
